@@ -858,9 +858,10 @@ class NonMementoFunctionHashRule(HashRule):
     ):
         # noinspection PyUnresolvedReferences
         name = obj.__module__ + ":" + obj.__qualname__
-        if "<lambda>" in obj.__qualname__:
-            # All lambdas of a scope share one qualified name: tell them apart by the symbol
-            # they are bound to, or only one of them would contribute to the version
+        if "<lambda>" in obj.__qualname__ or "<locals>" in obj.__qualname__:
+            # All lambdas of a scope, and all functions made by one factory function, share
+            # one qualified name: tell them apart by the symbol they are bound to, or only
+            # one of them would contribute to the version
             name += "@" + symbol
         super().__init__(
             key="Function;{};{}".format(parent_symbol, name),
